@@ -191,6 +191,8 @@ pub struct RawGenOpts {
     /// now and then an L-shaped wire with a small named contact diagonally off its outer corner,
     /// closer to the bend than the wire is wide but clear of it (labels must not leak across)
     pub contact_near_bend: bool,
+    /// instances may target cells that have only an abstract view (black-box macros)
+    pub instances_of_abstracts: bool,
 }
 fn maybe_close(src: &mut Src, o: &RawGenOpts, g: RGeom) -> RGeom {
     match g {
@@ -420,7 +422,7 @@ pub fn gen_rawlib(src: &mut Src, o: &RawGenOpts) -> RLib {
                 }
             }
             // instances of earlier cells that have a layout
-            let targets: Vec<usize> = (0..ci).filter(|i| cells[*i].has_layout).collect();
+            let targets: Vec<usize> = (0..ci).filter(|i| cells[*i].has_layout || o.instances_of_abstracts).collect();
             if !targets.is_empty() {
                 let ni = src.usize_in(0, 3);
                 for k in 0..ni {
@@ -449,7 +451,9 @@ pub fn gen_rawlib(src: &mut Src, o: &RawGenOpts) -> RLib {
                 let mut idx: Vec<usize> = pin_layers.clone();
                 src.shuffle(&mut idx);
                 let shapes = idx[..nl].iter().enumerate().map(|(k, l)| (*l, (0..src.usize_in(1, 2)).map(|j| { let g = gen_geom(src, pi * 6 + k * 2 + j).0; maybe_close(src, o, g) }).collect())).collect();
-                ports.push(RPort { net: format!("p{}", pi), shapes });
+                // port names in no particular order (the list is ordered data, not a set)
+                const PORT_NAMES: &[&str] = &["vpwr", "vgnd", "a", "y", "clk", "Q"];
+                ports.push(RPort { net: PORT_NAMES[(pi * 5 + w as usize + h as usize) % PORT_NAMES.len()].to_string(), shapes });
             }
             let obs_layers: Vec<usize> = (0..layers.len()).filter(|i| layers[*i].purposes.iter().any(|p| p.1 == RPurpose::Obstruction) && layers[*i].name.is_some()).collect();
             let nb = src.usize_in(0, obs_layers.len().min(3));
